@@ -438,6 +438,11 @@ class Env:
         self.call_start = 0
         self._wall = random.Random(wall_seed)
         self.wall_seed_bits = wall_seed          # bits 1, 2 choose among equivalent callable forms
+        self.reentrant = False                   # see _maybe_nested
+        self.depth = 0
+        self.built = None
+        self.nested_runs: list = []
+        self.nested_replay: list | None = None   # replay: one ReplayOracle per nested call
         self.is_async = cfg.has("async")
         self.deliver_throw = False     # deliver cancellation kinds by coro.throw at a suspension
         self._install_shims()
@@ -459,12 +464,25 @@ class Env:
         return {"elapsed": el, "remaining": self.cfg.deadline - el, "now": self.clock.ticks,
                 "op_count": self.op_count}
 
-    def ask(self, req: str, kind: str, extra: dict | None = None) -> Ans:
+    def ask(self, req: str, kind: str, extra: dict | None = None, nested_ticks: int = 0) -> Ans:
         info = self.info()
         if extra:
             info.update(extra)
         info["req"] = req
         a: Ans = self.oracle.choose(kind, info)
+        if nested_ticks:
+            # the operation made a nested call through the same policy first; for THIS call that is just time
+            # spent inside the operation: the logged duration is the whole of it, the clock has already moved
+            # by the nested part
+            if self.nested_replay is not None:
+                total = max(a.dur, nested_ticks)
+            else:
+                total = a.dur + nested_ticks
+            logged = Ans(a.kind, a.a, a.b, dur=total)
+            self.answers.append(logged.toks())
+            self.exchanges.append((self.step, req, logged.toks()))
+            self.clock.advance(total - nested_ticks)
+            return a
         self.answers.append(a.toks())
         if (self.cfg.silent_hooks and kind in ("metric", "log", "beforeSleep") and a.kind == "raise"
                 and a.a.split(":")[0] in ("ordinary", "abort", "exhausted", "circuitOpen")):
@@ -521,10 +539,35 @@ class Env:
     # -- callbacks -----------------------------------------------------------------------------
     def op(self) -> Any:
         self.op_count += 1
-        a = self.ask(f"op {self.op_count}", "op")
+        a = self.ask(f"op {self.op_count}", "op", nested_ticks=self._maybe_nested())
         if a.kind == "raise":
             raise self._op_exception(a.a)
         return self._val(a.a)
+
+    def _maybe_nested(self) -> int:
+        """Re-entrancy: on one of its invocations the operation of an outer call makes a complete call of its own
+        through the SAME policy object (its outcome is ignored).  Per-call state must be per call: the outer
+        call goes on as if the operation had simply taken that much longer, and the nested call is an ordinary
+        call starting at that instant — both are checked against the model as two separate cases."""
+        nest_at = 1 + ((self.wall_seed_bits >> 11) % 3)          # first, second or third invocation
+        if not self.reentrant or self.depth or self.op_count != nest_at or self.built is None:
+            return 0
+        t0 = self.clock.ticks
+        saved = (self.exchanges, self.answers, self.op_count, self.step, self.call_start, self.oracle,
+                 self.deliver_throw)
+        self.exchanges, self.answers, self.step, self.deliver_throw = [], [], 0, False
+        if self.nested_replay is not None:
+            self.oracle = self.nested_replay[len(self.nested_runs)] if len(self.nested_runs) < len(self.nested_replay) \
+                else self.oracle
+        self.depth = 1
+        try:
+            sr = run_step(self, self.built, self.cfg, "call")
+            self.nested_runs.append((t0, self.clock.ticks, sr, self.exchanges, self.answers))
+        finally:
+            (self.exchanges, self.answers, self.op_count, self.step, self.call_start, self.oracle,
+             self.deliver_throw) = saved
+            self.depth = 0
+        return self.clock.ticks - t0
 
     def _val(self, vid: int) -> "Val":
         """Same token => same value OBJECT (an operation may hand back the object it returned before)."""
@@ -552,7 +595,7 @@ class Env:
 
     async def aop(self) -> Any:
         self.op_count += 1
-        a = self.ask(f"op {self.op_count}", "op")
+        a = self.ask(f"op {self.op_count}", "op", nested_ticks=self._maybe_nested())
         if a.kind == "raise" and a.a.startswith("ordinary:"):
             raise self._op_exception(a.a)
         await self._araise_or(a)
@@ -762,11 +805,19 @@ def make_breaker(env: Env, cfg: LoopCfg):
             env.log_internal("breakerCancel", f"recorded - {self.state.value}")
 
     b = cfg.breaker
+    trip_on = {ErrorClass[k] for k in b["trip"]}
+    class_thresholds = {ErrorClass[k]: v for k, v in b["cls"].items()}
     br = LoggedBreaker(failure_threshold=b["threshold"], window_s=b["window"] * TICK,
                        recovery_timeout_s=b["recovery"] * TICK,
-                       trip_on={ErrorClass[k] for k in b["trip"]},
-                       class_thresholds={ErrorClass[k]: v for k, v in b["cls"].items()},
+                       trip_on=trip_on, class_thresholds=class_thresholds,
                        clock=env.clock.read)
+    if env.wall_seed_bits & 512:
+        # the caller goes on using ITS containers (here: empties them, then fills them with nonsense); a
+        # breaker that aliased instead of copying would change its behaviour
+        trip_on.clear()
+        trip_on.update(ErrorClass)
+        class_thresholds.clear()
+        class_thresholds.update({k: 1 for k in ErrorClass})
     ib = cfg.init_breaker
     if ib is not None:
         br._state = {"closed": CircuitState.CLOSED, "open": CircuitState.OPEN,
@@ -862,7 +913,24 @@ def build(env: Env, cfg: LoopCfg) -> Built:
     R, P, RP = (AsyncRetry, AsyncPolicy, AsyncRetryPolicy) if is_async else (Retry, Policy, RetryPolicy)
 
     def construct(cls, with_hooks: bool):
-        """the constructor, or — same configuration — `cls.from_config(RetryConfig(...), classifier=...)`"""
+        """the constructor, or — same configuration — `cls.from_config(RetryConfig(...), classifier=...)`;
+        for some cases built with a laxer deadline / attempt cap that is tightened to the real value by plain
+        attribute assignment afterwards (`policy.deadline`, `policy.max_attempts` are public and are what the
+        loop reads: nothing may have been cached at construction)"""
+        if (env.wall_seed_bits & 2048) and not getattr(construct, "_inner", False):
+            real = {"deadline_s": retry_kwargs["deadline_s"], "max_attempts": retry_kwargs["max_attempts"]}
+            retry_kwargs["deadline_s"] = real["deadline_s"] * 50 + 100.0
+            retry_kwargs["max_attempts"] = real["max_attempts"] + 7
+            construct._inner = True
+            try:
+                obj = construct(cls, with_hooks)
+            finally:
+                construct._inner = False
+                retry_kwargs.update(real)
+            from datetime import timedelta as _td
+            obj.deadline = _td(seconds=real["deadline_s"])
+            obj.max_attempts = real["max_attempts"]
+            return obj
         hooks = hook_kwargs if with_hooks else {}
         if (env.wall_seed_bits & 64) and not any(v is not None for v in hooks.values()):
             rc = RetryConfig(
@@ -876,11 +944,27 @@ def build(env: Env, cfg: LoopCfg) -> Built:
             return cls.from_config(rc, classifier=retry_kwargs["classifier"])
         return cls(**retry_kwargs, **hooks)
 
+    def scramble():
+        """after construction the caller reuses its own containers for something else"""
+        if not (env.wall_seed_bits & 512):
+            return
+        if isinstance(retry_kwargs.get("strategies"), dict):
+            d = retry_kwargs["strategies"]
+            junk = (lambda ctx: 12345.0)
+            d.clear()
+            d.update({k: junk for k in ErrorClass})
+        if isinstance(retry_kwargs.get("per_class_max_attempts"), dict):
+            d = retry_kwargs["per_class_max_attempts"]
+            d.clear()
+            d.update({k: 99 for k in ErrorClass})      # (a larger cap: an aliasing policy would over-retry)
+
     if cfg.kind == "Retry":
         target = construct(R, True)
+        scramble()
         return Built(target, budget, breaker, call_kwargs, ("call", "execute"))
     if cfg.kind == "Policy":
         retry = None if cfg.has("no_retry") else construct(R, True)
+        scramble()
         target = P(retry=retry, circuit_breaker=breaker)
         return Built(target, budget, breaker, call_kwargs, ("pcall", "pexecute"))
     if cfg.kind == "RetryPolicy":
@@ -893,6 +977,7 @@ def build(env: Env, cfg: LoopCfg) -> Built:
                 setattr(target, k, v)
         else:
             target = construct(RP, False)
+        scramble()
         return Built(target, budget, breaker, call_kwargs, ("pcall", "pexecute"))
     if cfg.kind == "decorator":
         # hooks are fixed at decoration time; only call() exists
@@ -940,11 +1025,11 @@ def outcome_toks(o: RetryOutcome) -> str:
         str(to_ticks(o.elapsed_s)), opt(o.next_sleep_s, lambda s: str(to_ticks(s)))])
 
 
-def timeline_lines(o: RetryOutcome) -> list[str]:
+def timeline_lines(o: RetryOutcome, start: int = 0) -> list[str]:
     if o.timeline is None:
         return []
     out = []
-    for e in o.timeline.events:
+    for e in o.timeline.events[start:]:
         out.append(" ".join(["tl", str(e.attempt), e.event, str(to_ticks(e.elapsed_s)),
                              str(to_ticks(e.sleep_s)), opt(e.error_class, lambda k: k.name),
                              opt(e.stop_reason, lambda s: s.value), opt(e.cause)]))
@@ -957,6 +1042,31 @@ class StepResult:
     res: str
     tl: list[str]
     notes: dict
+
+
+def _long_lived_context(env: Env, built: Built, cfg: LoopCfg, ctx_kwargs: dict):
+    """`policy.context(...)`; for half of the Retry / RetryPolicy cases ONE context object serves all the calls
+    of the script and is created while the policy-level handler / hook / sleeper are still placeholders that
+    are replaced right afterwards: a context resolves the policy's attributes when a call is made, not when
+    it is created, so the placeholders must never run (`env.stale` counts their calls)."""
+    t = built.target
+    if not (env.wall_seed_bits & 1024) or cfg.kind not in ("Retry", "RetryPolicy"):
+        return t.context(**ctx_kwargs)
+
+    def stale(*_a):
+        env.__dict__["stale"] = env.__dict__.get("stale", 0) + 1
+        return SleepDecision.SLEEP
+
+    real = {k: getattr(t, k) for k in ("sleep", "before_sleep", "sleeper")}
+    for k, v in real.items():
+        if v is not None:
+            setattr(t, k, stale)
+    cm = t.context(**ctx_kwargs)
+    for k, v in real.items():
+        if v is not None:
+            setattr(t, k, v)
+    built.__dict__["_cm"] = cm
+    return cm
 
 
 def run_step(env: Env, built: Built, cfg: LoopCfg, which: str) -> StepResult:
@@ -973,7 +1083,9 @@ def run_step(env: Env, built: Built, cfg: LoopCfg, which: str) -> StepResult:
             r = built.target()
         elif cfg.via_context and which == "call":
             ctx_kwargs = dict(kwargs)
-            cm = built.target.context(**ctx_kwargs)
+            cm = built.__dict__.get("_cm")
+            if cm is None:
+                cm = _long_lived_context(env, built, cfg, ctx_kwargs)
             if is_async:
                 async def use():
                     async with cm as c:
@@ -988,9 +1100,14 @@ def run_step(env: Env, built: Built, cfg: LoopCfg, which: str) -> StepResult:
             if cfg.has("timeline") and not cfg.has("no_retry"):
                 # either the flag or a caller-owned RetryTimeline (which must then be the one that is filled
                 # and handed back as outcome.timeline)
-                own = RetryTimeline() if (env.wall_seed_bits & 8) else None
+                # (ONE timeline object for all the execute() calls of the script: each run must append its own
+                # events to it whatever earlier runs left there)
+                own = None
+                if env.wall_seed_bits & 8:
+                    own = env.__dict__.setdefault("_own_timeline", RetryTimeline())
                 kwargs["capture_timeline"] = own if own is not None else True
                 notes["own_timeline"] = own
+                notes["own_timeline_start"] = len(own.events) if own is not None else 0
             r = built.target.execute(func, **kwargs)
         if is_async:
             r = drive(r, env)
@@ -1008,12 +1125,18 @@ def run_step(env: Env, built: Built, cfg: LoopCfg, which: str) -> StepResult:
             tb_ok = any(n in ("op", "aop") for n in names)
         notes["tb_ok"] = tb_ok
         notes.pop("own_timeline", None)
+        notes.pop("own_timeline_start", None)
+        if env.__dict__.get("stale"):
+            notes["stale_callbacks"] = env.__dict__.pop("stale")
         return StepResult(entry, "raise " + exn_tok(e), [], notes)
+    if env.__dict__.get("stale"):            # the log already shows it: the real callback's exchange is missing
+        notes["stale_callbacks"] = env.__dict__.pop("stale")
     if isinstance(r, RetryOutcome):
         own = notes.pop("own_timeline", None)
+        start = notes.pop("own_timeline_start", 0)
         if own is not None and r.timeline is not None and r.timeline is not own:
             return StepResult(entry, outcome_toks(r) + " foreign-timeline", timeline_lines(r), notes)
-        return StepResult(entry, outcome_toks(r), timeline_lines(r), notes)
+        return StepResult(entry, outcome_toks(r), timeline_lines(r, start if r.timeline is own else 0), notes)
     if isinstance(r, Val):
         return StepResult(entry, f"ret {r.vid}", [], notes)
     if r is None:
@@ -1030,13 +1153,18 @@ class CaseRun:
     cfg: LoopCfg
     script: list
     post_probe: str | None = None    # C08's observation: after recovery_timeout_s, is the next call admitted?
+    nested: list = field(default_factory=list)   # the nested calls made by re-entrant operations, as cases
 
 
 def run_case(case_id: str, cfg: LoopCfg, script: list, oracle, wall_seed: int = 0,
-             deliver_throw: bool = False) -> CaseRun:
+             deliver_throw: bool = False, reentrant: bool = False, nested_answers: list | None = None) -> CaseRun:
     """script: list of ('call'|'execute',) / ('advance', n)."""
     env = Env(cfg, oracle, wall_seed)
     env.deliver_throw = deliver_throw
+    env.reentrant = bool(reentrant) and cfg.breaker is None and cfg.budget is None
+    if nested_answers is not None:
+        from .oracle import ReplayOracle as _RO
+        env.nested_replay = [_RO(a) for a in nested_answers]
     import json as _json
     try:
         built = build(env, cfg)
@@ -1055,6 +1183,7 @@ def run_case(case_id: str, cfg: LoopCfg, script: list, oracle, wall_seed: int = 
             lines.append(f"r {i} {sr.res}")
         lines.append("end")
         return CaseRun("\n".join(lines) + "\n", results, [], "construction-failed", cfg, script, None)
+    env.built = built
     meta = {"kind": cfg.kind, "via_context": cfg.via_context, "wall_seed": wall_seed,
             "deliver_throw": deliver_throw, "script": [list(s) for s in script]}
     lines = [f"case {case_id}", "# meta " + _json.dumps(meta), cfg.cfg_line(), cfg.init_line()]
@@ -1097,4 +1226,22 @@ def run_case(case_id: str, cfg: LoopCfg, script: list, oracle, wall_seed: int = 
         b2._clock = lambda: t * TICK
         d = b2.allow()
         post = "admitted" if d.allowed else f"rejected:{d.state.value}"
-    return CaseRun("\n".join(lines) + "\n", results, env.exchanges, final, cfg, script, post)
+    nested = []
+    if env.nested_runs:
+        import copy as _copy
+        meta["reentrant"] = True
+        meta["nested_answers"] = [list(ans) for (_t0, _t1, _sr, _ex, ans) in env.nested_runs]
+        lines[1] = "# meta " + _json.dumps(meta)
+        for j, (t0, t1, sr, ex, ans) in enumerate(env.nested_runs):
+            ncfg = _copy.copy(cfg)
+            ncfg.init_now, ncfg.init_budget, ncfg.init_breaker = t0, [], None
+            nmeta = {"kind": cfg.kind, "via_context": cfg.via_context, "wall_seed": wall_seed,
+                     "deliver_throw": False, "script": [["call"]], "nested_in": case_id}
+            nl = [f"case {case_id}_n{j}", "# meta " + _json.dumps(nmeta), ncfg.cfg_line(), ncfg.init_line(),
+                  f"do {sr.entry}"]
+            nl += ["a " + a for a in ans]
+            nl += [f"i {s_} {req} => {an}" for (s_, req, an) in ex]
+            nl += [f"r 0 {sr.res}", "end"]
+            nfinal = f"now={t1} budget={budget_state_tok(None)} breaker={breaker_state_tok(None)}"
+            nested.append(CaseRun("\n".join(nl) + "\n", [sr], ex, nfinal, ncfg, [("call",)], None))
+    return CaseRun("\n".join(lines) + "\n", results, env.exchanges, final, cfg, script, post, nested)
